@@ -574,6 +574,42 @@ def rule_tab_edges(ctx):
                   "a playable note whose string / fret attributes do not fit this tuning gives %s; only a note without any fingering is an error" % [
                       (p.kind, short(repr(p.value), 50)) for p in paths])
 
+    # (5) a note without hints is drawn at a position that sounds it (an open string is one), at every width;
+    #     only a note no string can play is the range error
+    for label, frets in (("open string only", [0, None, None]), ("one position", [None, 7, None]), ("open or fretted", [None, 5, 0]),
+                         ("two digits", [None, None, 12]), ("nowhere", [None, None, None])):
+        summ3 = dict(summ)
+        summ3[ffk] = lambda it, a, k, n_, frets=frets: list(frets)
+        valid = {(i, fr) for i, fr in enumerate(frets) if fr is not None}
+        bad, n = None, 0
+        for width in (20, 33, 40, 80):
+            try:
+                paths = run_method(repo, fn, lambda: [note_stub(repo, "g", pitch=43), width, tuning_obj(repo, strings)], summaries=summ3, max_depth=30)
+            except CannotDecide as e:
+                raise AnalysisError("tablature.from_Note(<%s>): %s" % (label, e))
+            n += 1
+            if not valid:
+                if not (paths and all(p.kind == "raise" and p.value == "RangeError" for p in paths)):
+                    bad = "a note no string can play gives %s, expected the range error" % [(p.kind, short(repr(p.value), 50)) for p in paths]
+                    break
+                continue
+            if len(paths) != 1 or paths[0].kind != "return" or not isinstance(paths[0].value, str):
+                bad = "width %d: a note playable at %s gives %s" % (width, sorted(valid), [(p.kind, short(repr(p.value), 50)) for p in paths])
+                break
+            lines = paths[0].value.split("\n")
+            got = []
+            for li, line in enumerate(lines):
+                digits = "".join(c for c in line[line.find("||") + 2:] if c.isdigit())
+                if digits:
+                    got.append((len(strings) - 1 - li, int(digits)))
+            if len(lines) != len(strings) or len({len(x) for x in lines}) != 1:
+                bad = "width %d: %d lines of lengths %s for %d strings" % (width, len(lines), [len(x) for x in lines], len(strings))
+                break
+            if len(got) != 1 or got[0] not in valid:
+                bad = "width %d: the lines read (string, fret) %s, the note sounds at %s" % (width, got, sorted(valid))
+                break
+        ctx.check(bad is None, R, "from_Note[%s]" % label, fn.where(), "tablature.from_Note(<note whose frets per string are %s>, width) for %d widths" % (frets, n), bad or "")
+
 
 def rule_tab_container(ctx):
     """from_NoteContainer (and from_Note through it): equally long lines, one per string, and the fret numbers read off the
